@@ -824,7 +824,7 @@ def _machine_cases(tier):
         vseed = int(os.environ.get("VERIF_SEED", "1"))
     except ValueError:
         vseed = 1
-    n = 64 if tier == "quick" else 1600
+    n = 64 if tier == "quick" else 960
     cases = []
     for i in range(n):
         s = derive_seed(vseed, PROPERTY, "machine", i)
@@ -895,6 +895,12 @@ def _make_machine(case, ctx, sink):
         def set_pathloss(self, kind, seed):
             self._do(dict(op="pathloss", kind=kind, seed=seed, noarg=False))
 
+        # (same rule twice: Hypothesis picks uniformly among enabled rules)
+        @rule(kind=st.sampled_from(["matrix", "matrix", "matrix", "ones"]),
+              seed=seeds)
+        def set_pathloss_again(self, kind, seed):
+            self._do(dict(op="pathloss", kind=kind, seed=seed, noarg=False))
+
         @precondition(lambda self: self.it.PL is not None)
         @rule(noarg=st.booleans())
         def remove_pathloss(self, noarg):
@@ -925,6 +931,10 @@ def _make_machine(case, ctx, sink):
             l = data.draw(st.integers(0, ncol - 1), label="l")
             self._do(dict(op="read", views=vs, k=k, l=l))
 
+        @rule(data=st.data(), v=st.sampled_from(views))
+        def read_one(self, data, v):
+            self.read(data, [v])
+
         # corrupt_data splits by antenna count: square filters or none
         @precondition(lambda self: self.it._filters_square())
         @rule(nsymb=st.integers(1, 4), seed=seeds)
@@ -953,8 +963,13 @@ def _check_machine(case, ctx):
     import hypothesis
     from hypothesis import HealthCheck, Phase, Verbosity, settings
     from hypothesis.stateful import run_state_machine_as_test
+    from ..core import Ctx
     sink = {}
-    Machine = _make_machine(case, ctx, sink)
+    # labels / errors of the machine's histories are collected separately
+    # and only merged when the run passes: after a failure Hypothesis
+    # re-executes (shrinks) many histories, which would distort the counts
+    tmp = Ctx()
+    Machine = _make_machine(case, tmp, sink)
     phases = [Phase.generate] + ([Phase.shrink] if case.get("shrink") else [])
     sett = settings(max_examples=int(case["examples"]),
                     stateful_step_count=int(case["steps"]), database=None,
@@ -962,6 +977,7 @@ def _check_machine(case, ctx):
                     report_multiple_bugs=False, verbosity=Verbosity.quiet,
                     suppress_health_check=list(HealthCheck))
     hypothesis.seed(int(case["mseed"]))(Machine)
+    ctx.label("machine_case", "cls=" + case["cls"])
     try:
         run_state_machine_as_test(Machine, settings=sett)
     except Exception:  # noqa  -- re-raised below, only the trace is recorded
@@ -970,15 +986,20 @@ def _check_machine(case, ctx):
             # the last run is Hypothesis' replay of the (minimal) failing
             # history: make it the replay unit of this case
             case["trace"] = [dict(o) for o in it.trace]
+        ctx.label("machine_case_failed")
         raise
+    ctx.labels.extend(tmp.labels)
+    for k, v in tmp.errs.items():
+        ctx.err(k, v[0], v[1])
+    for k, v in tmp.extra.items():
+        ctx.count(k, v)
     ctx.count("machine_histories", sink.get("histories", 0))
     ctx.count("machine_histories_nontrivial", sink.get("nontrivial", 0))
-    ctx.label("machine_case")
     ctx.nontrivial(sink.get("nontrivial", 0) > 0)
 
 
 PARTS = [
-    Part("hist", _hist_strategy, quick=1600, thorough=60000,
+    Part("hist", _hist_strategy, quick=1600, thorough=40000,
          quick_shards=8),
     Part("machine", enumerate=_machine_cases, quick_shards=8,
          thorough_shards=16),
